@@ -250,6 +250,123 @@ def run(ctx):
         shutil.rmtree(work, ignore_errors=True)
     ctx.generators["paths"] = {"cases": npaths, "templates": len(TEMPLATES)}
 
+    # ---- get_def(name).render(): the def alone writes what it writes when called from a body ---------------------------------
+    GD = ('<%def name="cell(value, missing=\'n/a\')">[${repr(value)}|${repr(missing)}]</%def>'
+          '<%def name="buf(value)" buffered="True">B[${repr(value)}]</%def><%def name="fil(value)" filter="trim"> F[${repr(value)}] </%def>'
+          '<%def name="cac(value)" cached="True">C[${repr(value)}]</%def><%def name="cb(value)" cached="True" buffered="True">CB[${repr(value)}]</%def>'
+          '<%def name="kw(value, **rest)">K[${repr(value)}|${sorted(rest)}]</%def>')
+    gwork = tempfile.mkdtemp(prefix="c08g_")
+    try:
+        gfn = os.path.join(gwork, "gd.html")
+        with open(gfn, "w") as f:
+            f.write(GD)
+        gpaths = {"string": Template(GD), "module-directory": Template(filename=gfn, module_directory=os.path.join(gwork, "m")),
+                  "lookup": TemplateLookup(directories=[gwork]).get_template("gd.html")}
+        gpaths["module-template"] = ModuleTemplate(gpaths["module-directory"].module, template_source=GD)
+        ngd = 0
+        for value in [1, 0, "", None, False, (), "é"]:
+            for dname, extra in [("cell", {}), ("cell", {"missing": None}), ("cell", {"missing": 0}), ("buf", {}), ("fil", {}), ("cac", {}), ("cb", {}), ("kw", {"other": 1})]:
+                if dname in ("cac", "cb") and value != 1:
+                    continue                    # a cached def answers with its first content whatever the later arguments
+                args = dict(extra, value=value)
+                want = None
+                for path, tt in gpaths.items():
+                    ctx.evaluations += 1
+                    ngd += 1
+                    ctx.nontrivial.add(("get_def", dname, repr(args), path))
+                    try:
+                        from_body = Template(GD + "${%s(**a)}" % dname).render_unicode(a=args)
+                        alone = tt.get_def(dname).render_unicode(**args)
+                    except Exception as e:  # noqa
+                        alone, from_body = "raised %s: %s" % (type(e).__name__, str(e)[:80]), "?"
+                    if alone != from_body:
+                        ctx.violation({"template": GD, "def": dname, "arguments": repr(args), "path": path, "get_def_render": alone, "called_from_a_body": from_body},
+                                      "get_def(name).render() must write what the def writes when it is called with the same arguments", tags=["c08.get_def.matrix"])
+        ctx.generators["get_def_matrix"] = {"cases": ngd}
+    finally:
+        shutil.rmtree(gwork, ignore_errors=True)
+
+    # ---- PYTHONHASHSEED: also what a failing render reports -----------------------------------------------------------------
+    reports = {}
+    for seed in (["0", "1", "2", "3"] if tier == "quick" else [str(i) for i in range(24)]):
+        ctx.evaluations += 1
+        code = ("import sys; sys.path[:0]=['/repo']\nfrom mako.template import Template\n"
+                "t = Template('${alpha} ${beta} ${gamma} ${delta} ${epsilon}', strict_undefined=True)\n"
+                "try:\n    t.render(gamma=1)\nexcept NameError as e:\n    print(e)\n")
+        p = subprocess.run([sys.executable, "-c", code], capture_output=True, timeout=120, env=dict(os.environ, PYTHONHASHSEED=seed))
+        reports[seed] = p.stdout.decode("utf-8", "replace").strip() or p.stderr.decode("utf-8", "replace")[-200:]
+    if len(set(reports.values())) > 1:
+        ctx.violation({"template": "${alpha} ${beta} ${gamma} ${delta} ${epsilon}", "strict_undefined": True, "context": ["gamma"], "NameError_by_PYTHONHASHSEED": reports},
+                      "what a strict_undefined template reports depends on PYTHONHASHSEED", tags=["c08.hashseed-nameerror"])
+
+    # ---- mako-render on a template outside the working directory, with a relative include -----------------------------------
+    mwork = tempfile.mkdtemp(prefix="c08m_")
+    try:
+        os.makedirs(os.path.join(mwork, "sub"))
+        with open(os.path.join(mwork, "sub", "x.html"), "w") as f:
+            f.write('<%include file="y.html"/>main ${v}')
+        with open(os.path.join(mwork, "sub", "y.html"), "w") as f:
+            f.write("Y ")
+        want = TemplateLookup(directories=[os.path.join(mwork, "sub")]).get_template("x.html").render(v="1")
+        for cwd, arg in [(os.path.join(mwork, "sub"), "x.html"), (mwork, "sub/x.html"), ("/", os.path.join(mwork, "sub", "x.html")), (mwork, "./sub/x.html")]:
+            ctx.evaluations += 1
+            p = subprocess.run([sys.executable, "-c", "import sys; sys.path[:0]=['/repo']; from mako.cmd import cmdline; cmdline()", "--var", "v=1", arg],
+                               capture_output=True, timeout=120, cwd=cwd)
+            got_o = p.stdout.decode("utf-8", "replace")
+            if got_o != want:
+                ctx.violation({"working_directory": cwd.replace(mwork, "<tmp>"), "argument": arg.replace(mwork, "<tmp>"), "rendered": got_o[:200], "stderr": p.stderr.decode("utf-8", "replace")[-200:], "expected": want},
+                              "mako-render renders differently from the lookup path (relative include of a template named by a path)", tags=["c08.mako-render.relative-include"])
+    finally:
+        shutil.rmtree(mwork, ignore_errors=True)
+
+    # ---- a module file regenerated within the second of its predecessor, same length: the new text must be rendered ------------
+    import time as _time
+
+    def _safe_writer(source, outputpath):
+        fd, tmp = tempfile.mkstemp(dir=os.path.dirname(outputpath))
+        os.write(fd, source)
+        os.close(fd)
+        shutil.move(tmp, outputpath)
+    old_flag = sys.dont_write_bytecode
+    sys.dont_write_bytecode = False
+    regen = {"same-second": 0, "skipped": 0}
+    try:
+        for writer_name, writer in [("default", None), ("module_writer", _safe_writer)]:
+            done = False
+            for attempt in range(6 if tier == "quick" else 12):
+                swork = tempfile.mkdtemp(prefix="c08s_")
+                try:
+                    sfn = os.path.join(swork, "page.html")
+                    smd = os.path.join(swork, "mods")
+                    while _time.time() % 1.0 > 0.3:
+                        _time.sleep(0.01)
+                    outs2 = []
+                    stamps = []
+                    for gen_i, text in enumerate(["value AAA ${x + 1}", "value BBB ${x + 2}"]):
+                        with open(sfn, "w") as f:
+                            f.write(text)
+                        ahead = _time.time() + 3600 + 10 * gen_i
+                        os.utime(sfn, (ahead, ahead))
+                        t = Template(filename=sfn, module_directory=smd, module_writer=writer)
+                        outs2.append(t.render(x=1))
+                        stamps.append((int(os.stat(t.module.__file__).st_mtime), os.stat(t.module.__file__).st_size))
+                    if stamps[0] != stamps[1]:
+                        continue
+                    done = True
+                    regen["same-second"] += 1
+                    ctx.evaluations += 1
+                    if outs2[1] != "value BBB 3":
+                        ctx.violation({"writer": writer_name, "first": outs2[0], "after_the_edit": outs2[1], "expected": "value BBB 3"},
+                                      "a module file regenerated within the same second (same length) is loaded from the bytecode of its predecessor", tags=["c08.stale-bytecode." + writer_name])
+                    break
+                finally:
+                    shutil.rmtree(swork, ignore_errors=True)
+            if not done:
+                regen["skipped"] += 1
+    finally:
+        sys.dont_write_bytecode = old_flag
+    ctx.dist["same_second_regenerations"] = regen
+
     if model_ok:
         for g, m in zip(got, common.run_driver(PROP, req)):
             if m != g[1]:
